@@ -4,7 +4,7 @@ array and the complete (n, (row, col), t) log are compared in Coq with the prove
 import numpy as np
 from harness.driver import call_impl, cz, cnat, cbool, czlist, cgrid, chist, clist, cres
 from harness.twins import (Logged2, PredLt, make_rule, coq_rule_spec, exact_int, dress, dress_pred, RULE_DRESSINGS,
-                           PRED_DRESSINGS)
+                           PRED_DRESSINGS, invoke, Reentrant, ProjView2, Lin2)
 
 ID = 'C02'
 COQ_IMPORTS = ('From CPL Require Import Model.Base Model.Rules Model.Engine Model.Evolve2D Model.Evolve2DChecked '
@@ -28,7 +28,8 @@ TRUSTED = ['Python twins Lin2 / LinCT2 / Script / Logged2 / PredLt and the dress
 
 DTYPES = ['int64', 'int32', 'uint8', 'float64']
 _CDTYPE = {'bool': 'DBool', 'int32': 'DInt32', 'int64': 'DInt64', 'uint8': 'DUInt8', 'uint64': 'DUInt64',
-           'float64': 'DFloat64'}
+           'float64': 'DFloat64', 'object': 'DObject'}
+NONE_Z = -999983        # stands for the Python value None in object-dtype cases (cells, rule results) on the Coq side
 
 
 class Scaled:
@@ -179,6 +180,14 @@ def generate(rng, tier):
     for c in _dress_cases(rng, tier):
         yield c
     for c in _layout_cases(rng, tier):
+        yield c
+    for c in _callform_cases(rng, tier):
+        yield c
+    for c in _objnone_cases(rng, tier):
+        yield c
+    for c in _reentrant_cases(rng, tier):
+        yield c
+    for c in _retview_cases(rng, tier):
         yield c
 
 
@@ -369,6 +378,124 @@ def _layout_cases(rng, tier):
             yield c
 
 
+_EV2_NAMES = ['cellular_automaton', 'timesteps', 'apply_rule', 'r', 'neighbourhood', 'memoize']
+
+
+def _callform_cases(rng, tier):
+    """the same evolve2d call written all-positional, all-keyword and with every mixed split (the first npos arguments
+    positional, the rest by keyword), memoize=False given explicitly or left to its default"""
+    per = 6 if tier == 'quick' else 36
+    for npos in range(0, 7):
+        for j in range(per):
+            memo_given = True if npos == 6 else (j % 3 != 2)
+            r = 2 if j % 2 == 0 else 1
+            ty = ('vn', 'moore', 'vn', 'vn', 'moore', 'vn')[j % 6]      # j = 0, 2: von Neumann with r = 2
+            R, C = [(s0, s1) for (s0, s1) in _SHAPES_NS if min(s0, s1) >= r][(npos + j) % 6]
+            dyn = j % 3 == 1
+            c = _case(rng, 'callform/npos=%d/%s/%s' % (npos, 'memoize=False' if memo_given else 'memoize-defaulted',
+                                                       'dynamic' if dyn else 'fixed'),
+                      R, C, r, ty, rng.randint(2, 3), rng.randint(1, 2), ('script', 'linct', 'lin')[j % 3],
+                      mode='dyn' if dyn else 'fixed')
+            c['npos'] = npos
+            c['memo_given'] = memo_given
+            yield c
+
+
+def _objnone_cases(rng, tier):
+    """dtype=object automata whose cells are Python ints or None (a legitimate state: 'empty'); Script rules that
+    return None for some cells ("its return value becomes the cell's new state").  None travels as NONE_Z."""
+    n = 40 if tier == 'quick' else 400
+    for k in range(n):
+        R, C = _SHAPES_NS[k % len(_SHAPES_NS)]
+        r = rng.randint(0, min(R, C, 2))
+        T = rng.randint(2, 3)
+        dyn = k % 4 == 3
+        H = rng.randint(1, 2)
+        cell = lambda: NONE_Z if rng.random() < 0.3 else rng.randint(-5, 50)
+        hist = [[[cell() for _ in range(C)] for _ in range(R)] for _ in range(H)]
+        vs = [NONE_Z if rng.random() < 0.4 else rng.randint(-50, 200) for _ in range(R * C * (T - 1))]
+        # make sure some cell with a non-None state is set to None in the first step
+        flat = [x for row in hist[-1] for x in row]
+        live = [i for i, x in enumerate(flat) if x != NONE_Z]
+        if live:
+            vs[rng.choice(live)] = NONE_Z
+        else:
+            hist[-1][0][0] = 4
+            vs[0] = NONE_Z
+        yield {'kind': 'objnone/%s/%s' % ('vn' if k % 2 else 'moore', 'dynamic' if dyn else 'fixed'),
+               'mode': 'dyn' if dyn else 'fixed', 'R': R, 'C': C, 'r': r, 'ty': 'vn' if k % 2 else 'moore', 'T': T,
+               'hist': hist, 'dtype': 'object', 'rule': {'fam': 'script', 'vs': vs}}
+
+
+def _reentrant_cases(rng, tier):
+    """the rule runs a complete evolve2d of its own (same shape, r, neighbourhood, dtype; another Lin rule; memoize
+    False / True / 'recursive') before and after computing its value: calls must not share state"""
+    n = 24 if tier == 'quick' else 120
+    for k in range(n):
+        R, C = _SHAPES_NS[k % len(_SHAPES_NS)]
+        r = rng.randint(0, min(R, C, 2)) if k % 3 else min(R, C, 1)
+        ty = ('moore', 'vn')[k % 2]
+        dyn = k % 4 == 2
+        c = _case(rng, 'reentrant/nested-memoize=%s/%s' % (('False', 'True', 'recursive')[k % 3], 'dynamic' if dyn else 'fixed'),
+                  R, C, r, ty, 2 if R * C > 9 else rng.randint(2, 3), rng.randint(1, 2), ('script', 'linct', 'lin')[(k // 3) % 3],
+                  dtype=rng.choice(['int64', 'int32', 'float64']), mode='dyn' if dyn else 'fixed')
+        c['reentrant'] = {'memoize': ('False', 'True', 'recursive')[k % 3],
+                          'ws': [rng.randint(0, 3) for _ in range((2 * r + 1) ** 2)], 'm': rng.choice([3, 5, 7]),
+                          'grid': _grid(rng, R, C, c['dtype'], 'random')}
+        yield c
+
+
+def _retview_cases(rng, tier):
+    """the rule returns one entry of its block as a ZERO-DIMENSIONAL VIEW of the argument (twins.ProjView2); the model
+    is Lin with one-hot weights over the unmasked entries and a modulus above every state (states >= 0)"""
+    n = 24 if tier == 'quick' else 240
+    for k in range(n):
+        R, C = _SHAPES_NS[k % len(_SHAPES_NS)]
+        r = rng.randint(0, min(R, C, 2))
+        ty = ('moore', 'vn')[k % 2]
+        w = 2 * r + 1
+        free = [(i, j) for i in range(w) for j in range(w) if ty == 'moore' or abs(i - r) + abs(j - r) <= r]
+        idx = rng.randrange(len(free))
+        dyn = k % 4 == 1
+        dtype = rng.choice(['int64', 'int32', 'uint8', 'float64'])
+        c = _case(rng, 'retview/%s/%s' % (ty, 'dynamic' if dyn else 'fixed'), R, C, r, ty, rng.randint(2, 3),
+                  rng.randint(1, 2), 'lin', dtype=dtype, style='index', mode='dyn' if dyn else 'fixed')
+        c['hist'] = [[[abs(x) for x in row] for row in g] for g in c['hist']]
+        c['rule'] = {'fam': 'lin', 'ws': [0] * idx + [1], 'm': 1000003}
+        c['retview'] = list(free[idx])
+        yield c
+
+
+class LoggedObj:
+    """Logged2 for object-dtype neighbourhoods: None is recorded as NONE_Z"""
+    def __init__(self, f):
+        self.f, self.log = f, []
+
+    def __call__(self, n, c, t):
+        masked = isinstance(n, np.ma.MaskedArray)
+        d = n.data if masked else np.asarray(n)
+        vals = [[_obj_z(x) for x in row] for row in d.tolist()]
+        mask = ([[bool(x) for x in row] for row in np.ma.getmaskarray(n).tolist()] if masked
+                else [[False] * d.shape[1] for _ in range(d.shape[0])])
+        self.log.append(((vals, mask), (int(c[0]), int(c[1])), int(t)))
+        return self.f(n, c, t)
+
+
+def _obj_z(x):
+    return NONE_Z if x is None else exact_int(x)
+
+
+class NoneScript:
+    """Script whose NONE_Z entries are returned as the Python value None"""
+    def __init__(self, vs):
+        self.vs, self.i = vs, 0
+
+    def __call__(self, n, c, t):
+        v = self.vs[self.i] if self.i < len(self.vs) else 0
+        self.i += 1
+        return None if v == NONE_Z else v
+
+
 def _assign_vn():
     import os
     return ASSIGN_VN_DEFAULT and os.environ.get('C02_SCRIBBLE_ASSIGN_VN') != '0'
@@ -376,27 +503,52 @@ def _assign_vn():
 
 def run_impl(c):
     import cellpylib as cpl
-    ca = np.array(c['hist'], dtype=np.dtype(c['dtype']))
+    obj = c['dtype'] == 'object'
+    if obj:
+        ca = np.empty((len(c['hist']), c['R'], c['C']), dtype=object)
+        for a, g in enumerate(c['hist']):
+            for b, row in enumerate(g):
+                for d, x in enumerate(row):
+                    ca[a, b, d] = None if x == NONE_Z else x
+    else:
+        ca = np.array(c['hist'], dtype=np.dtype(c['dtype']))
     if c.get('layout'):
         ca = _lay_out(ca, c['layout'])
-    inner = make_rule(c['rule'], dim=2)
+    nb = 'Moore' if c['ty'] == 'moore' else 'von Neumann'
+    if obj:
+        inner = NoneScript(list(c['rule']['vs']))
+    elif c.get('retview'):
+        inner = ProjView2(*c['retview'])
+    else:
+        inner = make_rule(c['rule'], dim=2)
     if c.get('scribble'):
         inner = Scribble(inner, c.get('scribble_mode', 'data'))
     if c.get('scale', 1) != 1:
         inner = Scaled(inner, c['scale'])
     if c.get('kinds'):
         inner = KindAt(inner, c['kinds'])
-    rule = Logged2(inner)           # the log is taken (as copies) before the inner rule runs
+    if c.get('reentrant'):
+        ne = c['reentrant']
+        ngrid = np.array([ne['grid']], dtype=np.dtype(c['dtype']))
+        nmemo = {'False': False, 'True': True, 'recursive': 'recursive'}[ne['memoize']]
+        nrule = Lin2(list(ne['ws']), ne['m'])
+        inner = Reentrant(inner, lambda: cpl.evolve2d(ngrid, timesteps=2, apply_rule=nrule, r=c['r'], neighbourhood=nb,
+                                                       memoize=nmemo))
+    rule = (LoggedObj if obj else Logged2)(inner)   # the log is taken (as copies) before the inner rule runs
     handed = dress(rule, c.get('dress'))        # the dressing is the OUTERMOST wrapper of what evolve2d receives
-    nb = 'Moore' if c['ty'] == 'moore' else 'von Neumann'
     ts = c['T'] if c['mode'] == 'fixed' else dress_pred(PredLt(c['T']), c.get('pdress'))
-    res = call_impl(lambda: cpl.evolve2d(ca, timesteps=ts, apply_rule=handed, r=c['r'], neighbourhood=nb, memoize=False))
+    if 'npos' in c:
+        values = [ca, ts, handed, c['r'], nb] + ([False] if c.get('memo_given') else [])
+        res = call_impl(lambda: invoke(cpl.evolve2d, _EV2_NAMES[:len(values)], values, c['npos']))
+    else:
+        res = call_impl(lambda: cpl.evolve2d(ca, timesteps=ts, apply_rule=handed, r=c['r'], neighbourhood=nb, memoize=False))
     if res[0] != 'ok':
         return list(res)
     out = np.asarray(res[1])
-    grids = [[[exact_int(x) for x in row] for row in g] for g in out.tolist()] if out.ndim == 3 else []
+    conv = _obj_z if obj else exact_int
+    grids = [[[conv(x) for x in row] for row in g] for g in out.tolist()] if out.ndim == 3 else []
     log = [[vals, mask, [rc[0], rc[1]], t] for ((vals, mask), rc, t) in rule.log]
-    ca_after = [[[exact_int(x) for x in row] for row in g] for g in ca.tolist()]      # the caller's array after the call
+    ca_after = [[[conv(x) for x in row] for row in g] for g in ca.tolist()]      # the caller's array after the call
     return ['ok', {'shape': [int(x) for x in out.shape], 'grids': grids, 'log': log, 'ca_after': ca_after,
                    'dtype': str(out.dtype)}]
 
@@ -480,7 +632,7 @@ def oracle(c, obs):
 
 def shrink(c):
     R, C, r, T = c['R'], c['C'], c['r'], c['T']
-    if c['dtype'] in ('bool', 'uint64') or c['kind'].startswith('bigint'):
+    if c['dtype'] in ('bool', 'uint64', 'object') or c['kind'].startswith(('bigint', 'retview', 'callform')):
         # values are tied to the dtype: only drop history / steps
         if len(c['hist']) > 1:
             yield dict(c, hist=c['hist'][-1:])
